@@ -475,3 +475,22 @@ Proof.
   unfold bl. rewrite map_length, combine_length. lia.
 Qed.
 End Refinement.
+
+(* ---- the iterator: values, then at most one error, then nothing for ever ---- *)
+Lemma rtake_errored : forall n vs e, rtake n (mkRI vs e true) = repeat None n.
+Proof. induction n as [|n IH]; intros vs e; [reflexivity|]. cbn [rtake rnext ri_errored repeat]. rewrite IH. reflexivity. Qed.
+
+Lemma rtake_clean_end : forall n, rtake n (mkRI [] Clean false) = repeat None n.
+Proof. induction n as [|n IH]; [reflexivity|]. cbn [rtake rnext ri_errored ri_pending ri_end repeat]. rewrite IH. reflexivity. Qed.
+
+Theorem iterator_latches : forall vs e n,
+  rtake (length vs + S n) (mkRI vs e false) =
+  map (fun v => Some (RValue v)) vs ++
+  match e with Clean => repeat None (S n) | Failed => Some RError :: repeat None n end.
+Proof.
+  induction vs as [|v vs IH]; intros e n.
+  - cbn [length Nat.add map app]. destruct e.
+    + apply rtake_clean_end.
+    + cbn [rtake rnext ri_errored ri_pending ri_end]. rewrite rtake_errored. reflexivity.
+  - cbn [length Nat.add rtake rnext ri_errored ri_pending map app]. cbn [ri_end]. rewrite IH. reflexivity.
+Qed.
